@@ -163,4 +163,49 @@ func main() {
 	for _, x := range []float64{10, 20, 0, -50} {
 		qeq("gen_Tenth "+q(x), q(sem.Tenth(x)))
 	}
+	// ---- second batch
+	for _, p := range []struct {
+		xs []int
+		k  int
+	}{{nil, 3}, {[]int{1, -2, 3}, 7}} {
+		eq(fmt.Sprintf("gen_AppendSq %s %s", zl(p.xs), z(int64(p.k))), zl(sem.AppendSq(p.xs, p.k)))
+	}
+	ws := []float64{1.5, 2, -0.25, 8, 3}
+	for _, p := range [][2]int{{0, 5}, {1, 2}, {4, 1}, {2, 0}} {
+		qeq(fmt.Sprintf("gen_Window %s %s %s", ql(ws), z(int64(p[0])), z(int64(p[1]))), q(sem.Window(ws, p[0], p[1])))
+	}
+	for _, p := range [][2][]int{{{1, 2, 3}, {9}}, {{1, 2}, {7, 8, 9}}, {{}, {1}}, {{4, 5}, {}}} {
+		eq(fmt.Sprintf("gen_CopyInto %s %s", zl(p[0]), zl(p[1])), zl(sem.CopyInto(p[0], p[1])))
+	}
+	eq("gen_NilOrLen (@nil Q)", z(int64(sem.NilOrLen(nil))))
+	for _, k := range []int{1, 2, 5} {
+		eq("gen_NilOrLen "+ql(ws[:k]), z(int64(sem.NilOrLen(ws[:k]))))
+	}
+	for _, x := range []float64{2.75, -2.75, 0, 5, -0.5} {
+		ip, fr := sem.ModfParts(x)
+		n++
+		fmt.Printf("Example t%d : (let '(a, b) := gen_ModfParts %s in (Qeq_bool a %s, Qeq_bool b %s)) = (true, true). Proof. vm_compute. reflexivity. Qed.\n", n, q(x), q(ip), q(fr))
+	}
+	for _, k := range []int{-4, 0, 1, 15, 16, 17} {
+		r, err := sem.SqrtInt(k)
+		e := "None"
+		if err != nil {
+			e = "Some 77%N"
+		}
+		eq(fmt.Sprintf("gen_SqrtInt 77%%N 100 %s", z(int64(k))), opt(fmt.Sprintf("%s, %s", z(int64(r)), e)))
+	}
+	eq("gen_SqrtInt 77%N 3 (16)%Z", "None")
+	for _, p := range [][2]float64{{0.5, 3}, {-1, 0.25}, {2, -8}} {
+		qeq(fmt.Sprintf("gen_Closures %s %s", q(p[0]), q(p[1])), q(sem.Closures(p[0], p[1])))
+	}
+	for _, k := range []int{0, -5, 41} {
+		eq("gen_DebugOff "+z(int64(k)), z(int64(sem.DebugOff(k))))
+	}
+	for _, p := range [][2]int{{1, 0}, {3, 4}, {-3, 62}, {1, 63}, {5, 64}, {-1, 3}} {
+		eq(fmt.Sprintf("gen_ShiftL %s %s", z(int64(p[0])), z(int64(p[1]))), z(int64(sem.ShiftL(p[0], p[1]))))
+	}
+	// the opaque sort.Float64s is instantiated with an insertion sort written in Gallina (SemTest.v preamble)
+	for _, l := range [][]float64{{3}, {2, 1}, {5, -1, 4, 0.5, 2}} {
+		qeq("gen_SortedMid qsort "+ql(l), q(sem.SortedMid(l)))
+	}
 }
